@@ -193,8 +193,17 @@ class Scenario:
                         alts.append(z3.And(self.rf[(u.id, x.id)], rsv(w, x), clk[x.id] < clk[u.id]))
                 extra.append(rsv(w, u) == (z3.Or(*alts) if alts else z3.BoolVal(False)))
 
+        sw_cache = {}
+
         def sw_of(r, w):
-            """r (acquire read) synchronises with release write w: reads from w or from its release sequence"""
+            """r (acquire read) synchronises with release write w (and r is an acquire): reads from w or from its release sequence"""
+            k = (r.id, w.id)
+            if k not in sw_cache:
+                c = sw_of_(r, w)
+                sw_cache[k] = None if c is None else z3.And(c, is_acq(r))
+            return sw_cache[k]
+
+        def sw_of_(r, w):
             opts = []
             if (r.id, w.id) in self.rf:
                 opts.append(self.rf[(r.id, w.id)])
@@ -212,6 +221,7 @@ class Scenario:
         xs = na + init + relw
         work = [(x, y) for x in xs for y in targets.values() if x.tid != y.tid]
         done = set()
+        sw_into = {}
         while work:
             x, y = work.pop()
             if (x.id, y.id) in done:
@@ -220,16 +230,11 @@ class Scenario:
             alts = []
             if (x.tid, y.tid) in self.order:
                 alts.append(z3.BoolVal(True))     # spawn / join edge
-            for r in acqr:
-                if r.tid != y.tid or not (r is y or self.po_before(r, y)):
-                    continue
-                for w in relw:
-                    if w.tid == y.tid:
-                        continue
-                    swc = sw_of(r, w)
-                    if swc is None:
-                        continue
-                    sw = z3.And(swc, is_acq(r))
+            if y.id not in sw_into:
+                sw_into[y.id] = [(w, sw_of(r, w)) for r in acqr if r.tid == y.tid and (r is y or self.po_before(r, y))
+                                 for w in relw if w.tid != y.tid and sw_of(r, w) is not None]
+            for w, sw in sw_into[y.id]:
+                if True:
                     if w is x or self.po_before(x, w):
                         alts.append(sw)
                     elif w.tid != x.tid:
@@ -309,7 +314,7 @@ def solve(q, timeout_s=120, cross=True, workdir=None):
         q.model = s.model()
     if cross and q.result in ("sat", "unsat"):
         txt = to_smt2(q.cons)
-        wd = workdir or "/verif/.build/smt"
+        wd = workdir or os.path.join("/verif/.build/work", os.environ.get("VERIF_PROP", "adhoc"), "smt")
         os.makedirs(wd, exist_ok=True)
         p = os.path.join(wd, re.sub(r"\W+", "_", q.name) + ".smt2")
         open(p, "w").write(txt)
@@ -370,7 +375,7 @@ def solve_many(queries, timeout_s=120, workdir=None, jobs=None):
     `unknown` from the first solver, or two different verdicts = inconclusive. For `sat` the model is then obtained
     in-process."""
     from concurrent.futures import ThreadPoolExecutor
-    wd = workdir or "/verif/.build/smt"
+    wd = workdir or os.path.join("/verif/.build/work", os.environ.get("VERIF_PROP", "adhoc"), "smt")
     os.makedirs(wd, exist_ok=True)
     for q in queries:
         q.smt2 = os.path.join(wd, re.sub(r"\W+", "_", q.name) + ".smt2")
